@@ -329,8 +329,5 @@ pub fn replay(r: &Value) -> bool {
         _ => check_seed::<F1024>(seed, 5, 1, &mut rep),
     }
     println!("counters {:?} stats {:?}", rep.counters, rep.stats);
-    for v in &rep.violations {
-        println!("{}: {}", v.signature, v.detail);
-    }
-    rep.violations.is_empty()
+    crate::util::print_replay(&rep)
 }
